@@ -24,6 +24,7 @@ type Exec struct {
 	goDepth int
 
 	globals map[*ssa.Global]*Value
+	deadlineErr *Iface
 	pkgInit map[*ssa.Package]bool
 
 	prefix []Dec
